@@ -94,6 +94,13 @@ func Open(opt Options, srv *Server) (*Node, error) {
 	n.F = f
 	f.EnableFilters(false)
 	f.Start()
+	// Phase offset: the updates-loop timer now lives on the grid "start + whole
+	// seconds"; everything the driver starts (operations, client timeouts,
+	// stalls, advances) is kept 137 ms off that grid, so that a driver-side
+	// timer and the loop timer never fire at the same simulated instant (two
+	// goroutines woken at one instant run in an order the simulation does not
+	// control, e.g. unlock of the refresh lock vs the loop's TryLock).
+	time.Sleep(137 * time.Millisecond)
 	return n, nil
 }
 
